@@ -220,7 +220,26 @@ func (s *MemCachedStore) prepareSeekMemSnapshot(rng SeekRange) (Store, []KeyValu
 	}
 	ps := s.ps
 	s.runlock()
+	// A private store below is not protected by any lock and is written by the
+	// goroutine that owns it, so what the seek needs from it is taken now as
+	// well: the seek itself can run on another goroutine (SeekAsync) later.
+	if lower, ok := ps.(*MemCachedStore); ok && lower.private {
+		lps, lmem := lower.prepareSeekMemSnapshot(rng)
+		ps = seekSnapshot{Store: lps, memRes: lmem}
+	}
 	return ps, memRes
+}
+
+// seekSnapshot is a view of a private MemCachedStore taken by
+// prepareSeekMemSnapshot; only Seek makes sense for it.
+type seekSnapshot struct {
+	Store
+	memRes []KeyValueExists
+}
+
+// Seek implements the Store interface over the snapshot.
+func (s seekSnapshot) Seek(rng SeekRange, cont func(k, v []byte) bool) {
+	performSeek(context.Background(), s.Store, s.memRes, rng, false, cont)
 }
 
 // performSeek is internal representations of Seek* capable of seeking for the given key
